@@ -76,7 +76,21 @@ Section Id.
     intros E. specialize (Hh E). cbn [hd_ok] in Hh. apply negb_true_iff in Hh; exact Hh.
   Qed.
 
+  (* no encoding rule matches the empty string (T1 refuses such rules; here as a computed fact) *)
+  Definition nonnull (r : re) : bool :=
+    match mt u r (fun _ rest => Some rest) true [], mt u r (fun _ rest => Some rest) false [] with None, None => true | _, _ => false end.
+  Definition rules_nonnull : bool := forallb (fun e => forallb nonnull (snd e)) (sc_rules cfg).
+
+  Lemma search_none r : nonnull r = true -> forall s at0 i, nomatch_all u r at0 s -> re_search_from u r at0 i s = None.
+  Proof.
+    unfold nonnull. intros Hn. destruct (mt u r _ true []) eqn:Et; [discriminate|]. destruct (mt u r _ false []) eqn:Ef; [discriminate|].
+    induction s as [|c s' IH]; intros at0 i H; cbn [re_search_from].
+    - destruct at0; [rewrite Et|rewrite Ef]; reflexivity.
+    - cbn [nomatch_all] in H. destruct H as [E H]. unfold Strop.krest in E. rewrite E. apply IH; exact H.
+  Qed.
+
   Hypothesis Hchk : chk_id = true.
+  Hypothesis Hnn : rules_nonnull = true.
 
   Lemma rules_inert ty rs r : lookup (sc_rules cfg) ty = Some rs -> In r rs -> rule_inert r = true.
   Proof.
@@ -97,6 +111,19 @@ Section Id.
     { specialize (H r (or_introl eq_refl)). destruct t as [|c tl]; [congruence|]. cbn [nomatch_all] in H.
       unfold re_matches, re_match. unfold Strop.krest in H. rewrite (proj1 H). reflexivity. }
     rewrite E. apply IH. intros r' Hr'; apply H; right; exact Hr'.
+  Qed.
+
+  (* a valid identifier (without `__` when nd) passes the whole-token loop *)
+  Lemma full_ok_valid tyl t : valid_ident t = true -> (nd = true -> has_dunder t = false) -> full_ok u cfg tyl t = true.
+  Proof.
+    intros Hv Hd. destruct (valid_split t Hv) as [Hi Hh].
+    assert (Hrr : forall k r, In r (rules_for cfg k) -> negb (re_test u r t) = true).
+    { intros k r Hin. unfold rules_for in Hin. destruct (lookup (sc_rules cfg) k) as [rs|] eqn:L; [|destruct Hin].
+      apply negb_true_iff. unfold re_test, re_search. rewrite (search_none r); [reflexivity| |].
+      - apply lookup_in in L as (k' & Hk'). pose proof Hnn as Hq. unfold rules_nonnull in Hq. rewrite forallb_forall in Hq.
+        specialize (Hq _ Hk'). cbn [snd] in Hq. rewrite forallb_forall in Hq. exact (Hq r Hin).
+      - apply inert_nomatch; auto. eapply rules_inert; eassumption. }
+    unfold full_ok. apply andb_true_intro; split; apply forallb_forall; intros r Hin; eapply Hrr; exact Hin.
   Qed.
 
   Theorem strop_id_gen ty t :
@@ -130,8 +157,15 @@ Section Id.
     rewrite (Epat false). rewrite (Epat true). cbn [checked].
     rewrite (Edo (strop_by_keyword cfg) true (fun k => Ekw k true)). cbn [checked].
     rewrite (Edo (encode u sp cfg) true (fun k => Eenc k true)). cbn [checked].
+    assert (Efull : full_ok u cfg tyl t = true).
+    { assert (Hrr : forall k r, In r (rules_for cfg k) -> negb (re_test u r t) = true).
+      { intros k r Hin. unfold rules_for in Hin. destruct (lookup (sc_rules cfg) k) as [rs|] eqn:L; [|destruct Hin].
+        apply negb_true_iff. unfold re_test, re_search. rewrite (search_none r); [reflexivity| |eapply Hnm; eassumption].
+        apply lookup_in in L as (k' & Hk'). pose proof Hnn as Hq. unfold rules_nonnull in Hq. rewrite forallb_forall in Hq.
+        specialize (Hq _ Hk'). cbn [snd] in Hq. rewrite forallb_forall in Hq. exact (Hq r Hin). }
+      unfold full_ok. apply andb_true_intro; split; apply forallb_forall; intros r Hin; eapply Hrr; exact Hin. }
     unfold reverified. rewrite (Epat true), (Edo (strop_by_keyword cfg) true (fun k => Ekw k true)),
-      (Edo (encode u sp cfg) true (fun k => Eenc k true)).
+      (Edo (encode u sp cfg) true (fun k => Eenc k true)), Efull, orb_true_r.
     destruct (sc_reverify cfg); reflexivity.
   Qed.
 End Id.
